@@ -154,7 +154,8 @@ class C04(CollProperty):
             "producer wrote in this cycle; last_modified_time = latest write; valid from the first write until an invalidation; every consumer's "
             "value/modified/valid/lmt equal the producer's in every cycle; modified <=> lmt == now at every node of the tree; a parent is modified "
             "whenever a child is and a fixed-shape parent only then; outside its cycle delta_value()/added/removed/modified read nothing. non-trivial = "
-            ">= 5 probe readings incl. a quiet cycle; distinct = distinct (shapes, scripts)")
+            ">= 5 probe readings incl. a quiet cycle; distinct = distinct (shapes, scripts)"
+            " Round 3: 10% of the runs are a late-bound family: switch_ branches whose held input is a structural (non-peered) bundle of two scripted scalars, bound field by field at every key change; per reading: field value/validity equal the producer s, modified <=> lmt == now at every node, the bundle modified exactly when a field is and its lmt the latest of its fields.")
     assumptions = ["'the producer wrote' is taken from the producer's own output view right after its mutators ran, cross-checked against the container model for effective writes"]
 
     def gen(self, seed):
